@@ -262,7 +262,7 @@ pub fn run(cfg: &Cfg) -> Report {
     }
 
     // (B) random and structured matrices up to 5x5 (6x6 thorough), entries in [-9,9]
-    let nrand = cfg.tier.pick(4_000_000, 12_000_000);
+    let nrand = cfg.tier.pick(4_000_000, 60_000_000);
     let ctx = par_range(cfg, nrand, |ctx, k| {
         let mut rng = Rng::stream(seed, 0x14_0000_0000 + k as u64);
         let maxdim = 5;
@@ -339,7 +339,7 @@ pub fn run(cfg: &Cfg) -> Report {
 
     // (B2) non-chain diagonal presentations with 4-6 cyclic factors (the gcd/lcm fix-up loop needs >= 4
     // entries that do not divide each other to go wrong), optionally hidden by unimodular row operations
-    let ndiag = cfg.tier.pick(60_000, 400_000);
+    let ndiag = cfg.tier.pick(60_000, 2_000_000);
     let ctx = par_range(cfg, ndiag, |ctx, k| {
         let mut rng = Rng::stream(seed, 0x14_4000_0000 + k as u64);
         let n = 4 + rng.below(3);
@@ -369,7 +369,7 @@ pub fn run(cfg: &Cfg) -> Report {
     // (B3) large cyclic factors through doubling chains: generators x_1..x_k with x_i^2 = x_{i+1} and
     // x_k^c = 1 present Z_{c 2^(k-1)} with relators of length <= max(3, c); two or three independent
     // chains give products whose invariant factors need 64-bit lcm arithmetic
-    let nchain = cfg.tier.pick(400, 6000);
+    let nchain = cfg.tier.pick(400, 20000);
     let ctx = par_range(cfg, nchain, |ctx, k| {
         let mut rng = Rng::stream(seed, 0x14_8000_0000 + k as u64);
         let chains = 2 + rng.below(2);
